@@ -201,7 +201,12 @@ class ComponentLevel2( ComponentLevel1 ):
         # still have names
         field, idx = obj_name[ name_depth ]
         try:
-          child = getattr( obj, field )
+          if isinstance( obj, Signal ) and field in getattr( obj._dsl.Type, '__bitstruct_fields__', () ):
+            # A field of a bitstruct signal, even if the field has the
+            # name of a method of the signal object (inverse, get_type)
+            child = obj.__dict__[ field ] if field in obj.__dict__ else obj.__getattr__( field )
+          else:
+            child = getattr( obj, field )
         except AttributeError as e:
           print(e)
           raise VarNotDeclaredError( obj, field, func, s, nodelist[node_depth].lineno )
